@@ -15,7 +15,7 @@ use vek::quaternion::repr_c::Quaternion;
 use vkit::*;
 
 pub trait ApproxS:
-    Sc + AbsDiffEq<Epsilon = Self> + RelativeEq + UlpsEq + std::ops::Div<Output = Self> + std::ops::Mul<Output = Self> + std::ops::Sub<Output = Self>
+    Sc + AbsDiffEq<Epsilon = Self> + RelativeEq + UlpsEq + std::ops::Div<Output = Self> + std::ops::Mul<Output = Self> + std::ops::Sub<Output = Self> + std::ops::Add<Output = Self> + std::ops::Neg<Output = Self>
 {
     fn f(x: f64) -> Self;
     fn up(self, ulps: u32) -> Self;
@@ -281,7 +281,28 @@ pub fn mixed<F: ApproxS, C: ApproxC<F, K>, const K: usize>(t: &mut Tape, cx: &mu
         // both sides hold a's values (whatever kinds were drawn: NaN, inf, zeros, subnormal, MAX, ...)
         b = a;
     }
-    sample!(cx, "{}<{}> eps={:?} max_relative={:?} max_ulps={} operands={} a={:?} b={:?}", C::NAME, F::NAME, eps, rel, ulps, ["two objects", "the same object", "bitwise copy"][form], a, b);
+    // whole-operand relations (a joint condition on ALL positions at once, which per-position draws never meet):
+    // b = -a, b = a rotated by one position, b = a reversed, b = 2a, b = -a off by a few ulps / a small offset
+    let mut related = "";
+    if form == 0 && t.chance(48) {
+        let r = t.below(6);
+        let z = F::f(0.0);
+        for i in 0..K {
+            b[i] = match r {
+                0 => z - a[i],
+                1 => a[(i + 1) % K],
+                2 => a[K - 1 - i],
+                3 => a[i] + a[i],
+                4 => (z - a[i]) * (F::f(1.0) + F::EPS),
+                _ => z - a[i] + F::f(1e-4),
+            };
+        }
+        related = ["b = -a", "b = a rotated", "b = a reversed", "b = 2a", "b = -a(1+eps)", "b = -a + 1e-4"][r];
+        differing = (0..K).filter(|&i| !(a[i] == b[i])).count();
+        cx.label("related-operands");
+        cx.label(related);
+    }
+    sample!(cx, "{}<{}> eps={:?} max_relative={:?} max_ulps={} operands={} {} a={:?} b={:?}", C::NAME, F::NAME, eps, rel, ulps, ["two objects", "the same object", "bitwise copy"][form], related, a, b);
     let mut seen = Seen::default();
     let (ca, cb) = (C::mkf(&a), C::mkf(&b));
     let o = match form {
@@ -379,6 +400,13 @@ pub fn aliased<F: ApproxS, C: ApproxC<F, K>, const K: usize>(idx: u64, cx: &mut 
 
 macro_rules! tables {
     ($f:ident, $F:ty, $Fn:ty) => {{
+        let mut v: Vec<(usize, $Fn)> = tables_noq!($f, $F, $Fn);
+        v.push((4, $f::<$F, Quaternion<$F>, 4> as $Fn));
+        v
+    }};
+}
+macro_rules! tables_noq {
+    ($f:ident, $F:ty, $Fn:ty) => {{
         let mut v: Vec<(usize, $Fn)> = vec_table!($f, $F, $Fn).to_vec();
         v.push((4, $f::<$F, rm::Mat2<$F>, 4> as $Fn));
         v.push((9, $f::<$F, rm::Mat3<$F>, 9> as $Fn));
@@ -386,7 +414,6 @@ macro_rules! tables {
         v.push((4, $f::<$F, cm::Mat2<$F>, 4> as $Fn));
         v.push((9, $f::<$F, cm::Mat3<$F>, 9> as $Fn));
         v.push((16, $f::<$F, cm::Mat4<$F>, 16> as $Fn));
-        v.push((4, $f::<$F, Quaternion<$F>, 4> as $Fn));
         v
     }};
 }
@@ -418,6 +445,17 @@ pub trait AbsI: Sc + AbsDiffEq<Epsilon = Self> {
     fn pairs() -> Vec<(Self, Self)>;
     fn epsilons() -> Vec<Self>;
     fn benign(i: usize) -> Self;
+    /// a whole-operand relation that keeps `x - y` in range for benign x: negation (signed), complement to 200 (unsigned)
+    fn related(self) -> Self;
+    /// `int_abs` for Quaternion<Self>, if Quaternion<Self> implements AbsDiffEq at all (probed per concrete type, so
+    /// that the harness still builds, and still judges every other container, when an impl gains a bound)
+    fn quat_fn() -> Option<IdxFn>;
+}
+pub struct QProbe<T>(pub std::marker::PhantomData<T>);
+pub trait QFallback { fn get(&self) -> Option<IdxFn> { None } }
+impl<T> QFallback for QProbe<T> {}
+impl<T: AbsI> QProbe<T> where Quaternion<T>: AbsC<T, 4> {
+    pub fn get(&self) -> Option<IdxFn> { Some(int_abs::<T, Quaternion<T>, 4> as IdxFn) }
 }
 macro_rules! absi_signed { ($($t:ident)+) => { $(impl AbsI for $t {
     fn pairs() -> Vec<(Self, Self)> {
@@ -425,6 +463,8 @@ macro_rules! absi_signed { ($($t:ident)+) => { $(impl AbsI for $t {
     }
     fn epsilons() -> Vec<Self> { vec![0, 1, 2, 6, 200.min($t::MAX as i64) as $t, $t::MAX - 1, $t::MAX, -1, $t::MIN] }
     fn benign(i: usize) -> Self { (i as $t % 100) - 50 }
+    fn related(self) -> Self { -self }
+    fn quat_fn() -> Option<IdxFn> { QProbe::<$t>(std::marker::PhantomData).get() }
 })+ } }
 absi_signed!(i8 i32 i64);
 macro_rules! absi_unsigned { ($($t:ident)+) => { $(impl AbsI for $t {
@@ -433,6 +473,8 @@ macro_rules! absi_unsigned { ($($t:ident)+) => { $(impl AbsI for $t {
     }
     fn epsilons() -> Vec<Self> { vec![0, 1, 2, 6, 200, $t::MAX - 1, $t::MAX, $t::MAX / 2, 199] }
     fn benign(i: usize) -> Self { (i % 100) as $t }
+    fn related(self) -> Self { 200 - self }
+    fn quat_fn() -> Option<IdxFn> { QProbe::<$t>(std::marker::PhantomData).get() }
 })+ } }
 absi_unsigned!(u8 u32 u64);
 pub const INT_PAIRS: usize = 14;
@@ -456,6 +498,16 @@ pub fn int_abs<T: AbsI, C: AbsC<T, K>, const K: usize>(idx: u64, cx: &mut Cx) ->
     let (ca, cb) = (C::mkf(&a), C::mkf(&b));
     let copy = ca;
     let mut forms: Vec<(&C, &C, &[T; K], &[T; K], &'static str)> = vec![(&ca, &cb, &a, &b, "two objects"), (&cb, &ca, &b, &a, "two objects, swapped")];
+    // whole-operand relations on benign values (a joint condition on all positions): n = related(all of a0), r = a0 reversed
+    let mut a0 = a;
+    for i in 0..K { a0[i] = T::benign(i + p); }
+    let mut n = a0;
+    let mut r = a0;
+    for i in 0..K { n[i] = a0[i].related(); r[i] = a0[K - 1 - i]; }
+    let (c0, cn, cr) = (C::mkf(&a0), C::mkf(&n), C::mkf(&r));
+    forms.push((&c0, &cn, &a0, &n, "b = related(a) in every position"));
+    forms.push((&cn, &c0, &n, &a0, "a = related(b) in every position"));
+    forms.push((&c0, &cr, &a0, &r, "b = a reversed"));
     if x == y {
         forms.push((&ca, &ca, &a, &a, "the same object"));
         forms.push((&ca, &copy, &a, &a, "bitwise copy"));
@@ -479,7 +531,13 @@ pub fn int_abs<T: AbsI, C: AbsC<T, K>, const K: usize>(idx: u64, cx: &mut Cx) ->
     Ok(())
 }
 pub const INT_ABS_TOTAL: u64 = POSITIONS * INT_PAIRS as u64;
+fn quat_impl_missing(_idx: u64, cx: &mut Cx) -> CaseResult {
+    cx.label("Quaternion<T>-has-no-AbsDiffEq-for-this-T");
+    Ok(())
+}
 pub fn int_abs_all<T: AbsI>(idx: u64, cx: &mut Cx) -> CaseResult {
-    let tab: Vec<(u64, IdxFn)> = tables!(int_abs, T, IdxFn).iter().map(|(n, f)| (*n as u64 * INT_PAIRS as u64, *f)).collect();
+    let mut t = tables_noq!(int_abs, T, IdxFn);
+    t.push((4, T::quat_fn().unwrap_or(quat_impl_missing as IdxFn)));
+    let tab: Vec<(u64, IdxFn)> = t.iter().map(|(n, f)| (*n as u64 * INT_PAIRS as u64, *f)).collect();
     dispatch(idx, &tab, cx)
 }
